@@ -16,6 +16,7 @@ import (
 )
 
 type World struct {
+	dupNames  []string
 	repo      string
 	prog      *ssa.Program
 	pkgs      map[string]*ssa.Package
@@ -98,6 +99,9 @@ func loadWorld(repo string, patterns []string, extraContractDirs []string) (*Wor
 			}
 		}
 	}
+	if len(w.dupNames) > 0 {
+		return nil, fmt.Errorf("contracts: %s", strings.Join(w.dupNames, "; "))
+	}
 	return w, nil
 }
 
@@ -106,17 +110,40 @@ func (w *World) addFile(cf *ContractFile) {
 	for k, v := range cf.Consts {
 		w.consts[k] = v
 	}
+	// names of spec functions, lemmas, invariants and ghosts are global: a second definition would silently
+	// replace the first one in every contract that uses it
+	dup := func(kind, name, where string) {
+		w.dupNames = append(w.dupNames, fmt.Sprintf("%s %s is defined twice (second definition in %s)", kind, name, where))
+	}
 	for _, s := range cf.Specs {
+		if _, ok := w.specFuncs[s.Name]; ok {
+			dup("spec function", s.Name, cf.Path)
+		}
+		if _, ok := w.invs[s.Name]; ok {
+			dup("spec function/invariant", s.Name, cf.Path)
+		}
 		w.specFuncs[s.Name] = s
 	}
 	for _, l := range cf.Lemmas {
+		if _, ok := w.lemmas[l.Name]; ok {
+			dup("lemma", l.Name, cf.Path)
+		}
 		w.lemmas[l.Name] = l
 		w.lemmaList = append(w.lemmaList, l)
 	}
 	for _, i := range cf.Invs {
+		if _, ok := w.invs[i.Name]; ok {
+			dup("invariant", i.Name, cf.Path)
+		}
+		if _, ok := w.specFuncs[i.Name]; ok {
+			dup("spec function/invariant", i.Name, cf.Path)
+		}
 		w.invs[i.Name] = i
 	}
 	for _, g := range cf.Ghosts {
+		if _, ok := w.ghosts[g.Name]; ok {
+			dup("ghost", g.Name, cf.Path)
+		}
 		w.ghosts[g.Name] = g
 	}
 	for _, o := range cf.Opaque {
